@@ -43,6 +43,16 @@ EXTRA = {
     "bq_project_alter": ["CREATE TABLE proj.ds.bq{i} (a int, b int);", "ALTER TABLE ds.bq{i} ADD c int;", "CREATE INDEX ix_bq{i} ON ds.bq{i} (a);"],
     "bq_project_alter2": ["CREATE TABLE ds.bp{i} (a int, b int);", "ALTER TABLE proj.ds.bp{i} ADD CONSTRAINT fkbp{i} FOREIGN KEY (a, b) REFERENCES p2.ds2.o (x, y);",
                           "CREATE UNIQUE INDEX ux_bp{i} ON ds.bp{i} (b DESC);"],
+    # a literal that holds '=' followed, on the same line, by options written key=value
+    "eq_literal_option": ["CREATE TABLE eq{i} (a varchar(20) DEFAULT 'k=v', b int DEFAULT 5) COMMENT='x';"],
+    "eq_literal_option2": ["CREATE TABLE er{i} (a varchar(20) default 'k=v', b int) ENGINE=InnoDB DEFAULT CHARSET=utf8;"],
+    # hive bucketing / skew clauses (fields of the HQL class itself)
+    "hql_buckets": ["CREATE TABLE hb{i} (a int, b string) CLUSTERED BY (a) INTO 32 BUCKETS SKEWED BY (a) ON (1, 2) STORED AS ORC;"],
+    # the same table id twice (DROP + CREATE, two spellings, a TEMPORARY twin) together with ALTER / INDEX statements that address it
+    "redefine_alter": ["DROP TABLE rd{i};", "CREATE TABLE rd{i} (id int, amount int);", "ALTER TABLE rd{i} ADD CONSTRAINT fk_c{i} FOREIGN KEY (id) REFERENCES p (k);"],
+    "redefine_index": ["CREATE TABLE Ru{i} (a int);", "CREATE TABLE ru{i} (a int, b int);", "CREATE INDEX ix_ru{i} ON ru{i} (a);"],
+    "temp_twin": ["CREATE TABLE tw{i} (id int, customer int);", "CREATE TEMPORARY TABLE tw{i} (id int, note int);", "CREATE INDEX tw_ix{i} ON tw{i} (id);",
+                  "ALTER TABLE tw{i} ADD CONSTRAINT ck_tw{i} CHECK (id > 0);"],
     "partition": ["CREATE TABLE pt{i} (a int, b date) PARTITION BY RANGE (b);"],
     "partitioned": ["CREATE TABLE pd{i} (a int, b string) PARTITIONED BY (dt string, hr int);"],
 }
